@@ -64,7 +64,9 @@ def opTokOf (t : OpTable) (name : String) (named : Bool) : Option OpTok :=
   else if name == "(" then some .lpar
   else if name == ")" then some .rpar
   else match t.bin.findIdx? (fun b => b.text == name) with
-    | some k => some (.bin k)
+    | some _ =>
+      -- several rules may share the text: the token stands for the rule of the greatest level
+      (t.binWinner name).map OpTok.bin
     | none => match t.un.findIdx? (fun u => u.text == name) with
       | some k => some (.un k)
       | none => match t.post.findIdx? (fun u => u.text == name) with
